@@ -54,6 +54,7 @@ def check(ck):
     r15_15(ck)
     from . import c06 as _c06
     _c06.r06_7(ck, rule='R15.16')
+    _c06.r06_13(ck, rule='R15.17')
     ck.rule('R15.14', 'recursions hand their mode parameters on: '
             '_get_composite_state_recur (state_type, config), deep_compare '
             'and deep_merge_check (conflict detection of declarations) '
